@@ -223,8 +223,21 @@ def scenario(c, inst):
     if st != "ok":
         c.check("c13.fresh_system_constructs", False, info=repr(b))
         return
-    sa = run(a.integrate, callback=[spans.cap_callback(c, cap, kind)])
-    sb = run(b.integrate, callback=[spans.cap_callback(c, cap, kind)])
+    if "E" in ops:
+        # the history monitored an event: the re-run monitors the SAME event function object (the detector reports the same crossing to
+        # both systems) - what was recorded before the reset must not influence what is recorded now
+        with patched(ds, "handle_events", events_stub):
+            evstate["n"] = 0
+            sa = run(a.integrate, events=[ev], callback=[spans.cap_callback(c, cap, kind)])
+            evstate["n"] = 0
+            sb = run(b.integrate, events=[ev], callback=[spans.cap_callback(c, cap, kind)])
+        if sa[0] == "ok" and sb[0] == "ok":
+            c.check("c13.events_after_reset_equal_fresh_run", len(a.events) == len(b.events) and
+                    c.all([c.eq(ea.t, eb.t) for ea, eb in zip(a.events, b.events)] + [_eqv(c, ea.y, eb.y) for ea, eb in zip(a.events, b.events)]),
+                    info=dict(ops=ops, a=len(a.events), b=len(b.events)))
+    else:
+        sa = run(a.integrate, callback=[spans.cap_callback(c, cap, kind)])
+        sb = run(b.integrate, callback=[spans.cap_callback(c, cap, kind)])
     if sa[0] != "ok" or sb[0] != "ok":
         c.check("c13.run_after_reset_behaves_like_fresh_run", sa[0] == sb[0], info=dict(a=repr(sa[1]), b=repr(sb[1]), ops=ops))
         return
